@@ -292,6 +292,36 @@ def r3_filter_before_import(ctx, rep, R='C14.R3'):
     rep.floor(R, n, 4, 'import-by-name sites')
 
 
+def walk_prunes_in_place(ctx, rep, R):
+    """walk_with_symlinks removes options.ignore_dir from the list os.walk handed out IN PLACE, before the
+    step is yielded, on every path -- os.walk descends into what is left in that very list, and the
+    callers prune the same object (shared with C15.R5: an ignored directory that is still walked has its
+    bytecode taken for orphaned)"""
+    m = ctx.model
+    fw = m.func('find.walk_with_symlinks')
+    gw = ctx.cfg(fw)
+    lpw, namesw = _walk_loop(ctx, fw, gw)
+    okw = False
+    if lpw is not None:
+        dirs = namesw[1]
+        for n in gw.nodes:
+            if n.kind == 'stmt' and _order_preserving_store(n.ast, dirs) in ('filter', 'sort+filter'):
+                comp = _store_comp(n.ast)
+                tv = comp.generators[0].target.id
+                conds = comp.generators[0].ifs
+                good = len(conds) == 1 and isinstance(conds[0], ast.Compare) and \
+                    isinstance(conds[0].ops[0], ast.NotIn) and is_name(conds[0].left, tv) and \
+                    dotted(conds[0].comparators[0]) == 'options.ignore_dir'
+                ys = [x.id for x in gw.nodes if x.kind == 'stmt' and any(
+                    isinstance(y, ast.Yield) for y in ast.walk(x.ast)) and x.id in gw.loop_nodes(lpw.id)]
+                body = [d for d, k in gw.succ[lpw.id] if k == 'true']
+                r = gw.reach(body, avoid={n.id}, include_start=True)
+                okw = good and bool(ys) and not any(y in r for y in ys)
+    rep.check(okw, R, 'walk_with_symlinks: dirs[:] = [d for d in dirs if d not in options.ignore_dir] '
+              'before the yield', 'ignored directories are not pruned before the walk step is yielded',
+              key='prune:walk', func=fw.qualname, where=ctx.where(fw, fw.node))
+
+
 def r4_pruning(ctx, rep, R='C14.R4'):
     rep.rule(R, 'pruning: find_test_files_ keeps, in place and before the walk resumes, only '
              'directories whose name is an identifier and not in IGNORE_FOLDERS; walk_with_symlinks '
@@ -340,28 +370,7 @@ def r4_pruning(ctx, rep, R='C14.R4'):
         isinstance(ident.value.args[0], ast.Constant) and ident.value.args[0].value.endswith('$')
     rep.check(oki, R, 'identifier = re.compile(<anchored pattern>).match',
               'the identifier test is no longer an anchored match', key='prune:identifier', func='find')
-    fw = m.func('find.walk_with_symlinks')
-    gw = ctx.cfg(fw)
-    lpw, namesw = _walk_loop(ctx, fw, gw)
-    okw = False
-    if lpw is not None:
-        dirs = namesw[1]
-        for n in gw.nodes:
-            if n.kind == 'stmt' and _order_preserving_store(n.ast, dirs) in ('filter', 'sort+filter'):
-                comp = _store_comp(n.ast)
-                tv = comp.generators[0].target.id
-                conds = comp.generators[0].ifs
-                good = len(conds) == 1 and isinstance(conds[0], ast.Compare) and \
-                    isinstance(conds[0].ops[0], ast.NotIn) and is_name(conds[0].left, tv) and \
-                    dotted(conds[0].comparators[0]) == 'options.ignore_dir'
-                ys = [x.id for x in gw.nodes if x.kind == 'stmt' and any(
-                    isinstance(y, ast.Yield) for y in ast.walk(x.ast)) and x.id in gw.loop_nodes(lpw.id)]
-                body = [d for d, k in gw.succ[lpw.id] if k == 'true']
-                r = gw.reach(body, avoid={n.id}, include_start=True)
-                okw = good and bool(ys) and not any(y in r for y in ys)
-    rep.check(okw, R, 'walk_with_symlinks: dirs[:] = [d for d in dirs if d not in options.ignore_dir] '
-              'before the yield', 'ignored directories are not pruned before the walk step is yielded',
-              key='prune:walk', func=fw.qualname, where=ctx.where(fw, fw.node))
+    walk_prunes_in_place(ctx, rep, R)
     default_ignores_kept(ctx, rep, R)
     symlinked_directories_followed(ctx, rep, R)
 
